@@ -20,6 +20,7 @@ import (
 	"go.minekube.com/gate/pkg/edition/java/proxy/internal/resourcepack"
 	"go.minekube.com/gate/pkg/gate/proto"
 	"go.minekube.com/gate/pkg/internal/future"
+	"go.minekube.com/gate/pkg/internal/verifhook"
 )
 
 type clientConfigSessionHandler struct {
@@ -139,6 +140,7 @@ func (h *clientConfigSessionHandler) handlePluginMessage(p *plugin.Message) {
 	} else if h.enqueuePluginMessage(h.player.connectionInFlightOrConnectedServer(), p) {
 		return
 	} else {
+		verifhook.Point("pmq.cfg.direct", "n", len(p.Data))
 		serverConn := h.player.connectionInFlightOrConnectedServer()
 		if serverConn == nil {
 			return
@@ -226,6 +228,7 @@ func (h *clientConfigSessionHandler) writeBrandPacketTo(serverConn *serverConnec
 // path, including overflow rejection. It returns false only once the backend is
 // ready for direct config plugin messages.
 func (h *clientConfigSessionHandler) enqueuePluginMessage(target *serverConnection, msg *plugin.Message) bool {
+	verifhook.Point("pmq.cfg.enqueue", "n", len(msg.Data))
 	h.mu.Lock()
 	if target != nil && h.mu.readyServer == target {
 		h.mu.Unlock()
@@ -241,6 +244,7 @@ func (h *clientConfigSessionHandler) enqueuePluginMessage(target *serverConnecti
 		h.mu.pluginMessagesOverflowed = true
 		h.mu.pluginMessages.Clear()
 		h.mu.pluginMessagesBytes = 0
+		verifhook.Event("pmq.cfg.overflow", "count", newCount, "bytes", newBytes)
 		h.mu.Unlock()
 		h.log.Info("disconnecting player: pre-backend config plugin message queue exceeded its limits",
 			"messages", newCount, "bytes", newBytes)
@@ -254,6 +258,7 @@ func (h *clientConfigSessionHandler) enqueuePluginMessage(target *serverConnecti
 		Data:    append([]byte(nil), msg.Data...),
 	})
 	h.mu.pluginMessagesBytes = newBytes
+	verifhook.Event("pmq.cfg.queued", "n", len(msg.Data), "count", newCount, "bytes", newBytes)
 	h.mu.Unlock()
 	return true
 }
@@ -264,6 +269,7 @@ func (h *clientConfigSessionHandler) flushQueuedPluginMessagesTo(serverConn *ser
 		return netmc.ErrClosedConn
 	}
 
+	verifhook.Point("pmq.cfg.flush")
 	h.mu.Lock()
 	defer h.mu.Unlock()
 	if h.mu.readyServer == serverConn {
@@ -287,6 +293,7 @@ func (h *clientConfigSessionHandler) flushQueuedPluginMessagesTo(serverConn *ser
 		}
 	}
 	h.mu.readyServer = serverConn
+	verifhook.Event("pmq.cfg.flushed", "n", n)
 	return nil
 }
 
